@@ -125,7 +125,11 @@ class igmp (packet_base):
       s += self.extra
 
       for _ in range(num):
-        off,gr = GroupRecord.unpack_new(self.extra)
+        try:
+          off,gr = GroupRecord.unpack_new(self.extra)
+        except struct.error:
+          self.msg('IGMPv3 report is missing group records')
+          return None
         self.extra = self.extra[off:]
         self.group_records.append(gr)
 
